@@ -3018,7 +3018,10 @@ class MNOT(M_Pattern_One):
         return self.static_tags
 
     def _leaf_asts(self) -> tp_Set[type[AST]] | None:
-        leaf_asts = _LEAF_ASTS_FUNCS.get((p := self.pat).__class__, _leaf_asts_default)(p)
+        if (p_cls := (p := self.pat).__class__) not in _LEAF_ASTS_EXACT_CLASSES:  # a pattern with contents can fail on a node of its own type and that node then matches the MNOT, so all nodes must be checked
+            return None
+
+        leaf_asts = _LEAF_ASTS_FUNCS.get(p_cls, _leaf_asts_default)(p)
 
         if not leaf_asts:
             if leaf_asts is None:
@@ -5667,6 +5670,8 @@ def _leaf_asts_none(pat: _Pattern) -> tp_Set[type[AST]] | None:
 
 def _leaf_asts_unknown(pat: _Pattern) -> tp_Set[type[AST]] | None:
     return None
+
+_LEAF_ASTS_EXACT_CLASSES = frozenset([type, EllipsisType, int, float, complex, bytes, bool, NoneType])  # pattern classes for which the leaf types returned are matched unconditionally, so complement for MNOT is exact
 
 _LEAF_ASTS_FUNCS = {  # don't need quantifiers here because they can't be at a top level where they would influence the types that need to be checked in a search()
     M:            M._leaf_asts,
